@@ -38,7 +38,7 @@ BUDGET = {"quick": {"cases": 280, "maxlen": 12, "search": 600},
 RULE = ("random initial model (1-3 states, 1-3 params, 0-3 events, every API route incl. incremental ones) + random history "
         "(length 3..12 quick / 3..40 thorough) of mutators (add_event Event/bare Transition, add_transition, add_birth_death, "
         "add_ode, derived parameter, new parameter/state then used, parameter values as list/ndarray/tuples/permuted tuples/"
-        "dict/partial dict/Symbol-keyed dict, rejected calls) interleaved with evaluations; all 11 evaluators observed "
+        "dict/partial dict/Symbol-keyed dict, rejected calls) interleaved with evaluations; all 12 evaluators (grad_grad included) observed "
         "after every step on a replayed instance; non-trivial = some mutator or parameter assignment occurs after a compile")
 ASSUMPTIONS = ["'fresh model' = SimulateOde built from the accumulated definition with no evaluator compiled before the last "
                "mutator, parameters assigned once as a full list (a parameter never given a value counts as 0, as "
@@ -49,10 +49,10 @@ ASSUMPTIONS = ["'fresh model' = SimulateOde built from the accumulated definitio
                "VERIF_C08_CFG=as_found selects the model of the tree as found"]
 TRUSTED = ["harness generator / replay logic", "Lean driver JSON codec", "pymodel.build (route replay)"]
 
-EVALS = ["ode", "jacobian", "grad", "diff_jacobian", "grad_jacobian", "eventRateVector", "vMat", "pureOdeVector",
+EVALS = ["ode", "jacobian", "grad", "diff_jacobian", "grad_jacobian", "grad_grad", "eventRateVector", "vMat", "pureOdeVector",
          "transitionJacobian", "transitionMean", "transitionVar"]
 GENERATOR = {"ode": "get_ode_eqn", "jacobian": "get_jacobian_eqn", "grad": "get_grad_eqn",
-             "diff_jacobian": "get_diff_jacobian_eqn", "grad_jacobian": "get_grad_jacobian_eqn",
+             "diff_jacobian": "get_diff_jacobian_eqn", "grad_jacobian": "get_grad_jacobian_eqn", "grad_grad": "get_grad_grad_eqn",
              "eventRateVector": "get_EventRateVector", "vMat": "get_StateChangeMatrix", "pureOdeVector": "get_pureOdeVector",
              "transitionJacobian": "get_TransitionJacobian", "transitionMean": "get_TransitionMean",
              "transitionVar": "get_TransitionVar"}
@@ -289,6 +289,12 @@ def run_case(case):
 
     # ---- pass 0: which mutators does the real code accept; definition versions; parameter values after each step
     m0 = pymodel.build(spec, backend="lambda")
+    absent = [e for e in EVALS if not hasattr(m0, e)]
+    if absent:
+        # the modelled source registers these names with add_func (Canary.Ev): their absence is a broken correspondence
+        return {"nontrivial": False, "tags": ["evaluator-missing:" + ",".join(absent)], "violations": [],
+                "mismatches": [{"what": "evaluator missing: " + ",".join(absent),
+                                "detail": "the model has no attribute %s; Canary.Ev / simulate.HasNewTransition.states list it" % absent}]}
     pv = {p: _f(v) for p, v in case["pv0"].items()}
     names0 = [str(p) for p in m0.param_list]
     for nm in names0:
